@@ -378,6 +378,19 @@ def main():
             print(f"VIOLATION property={prop} replay={p}")
             violations += 1
 
+    # ---- 4b-dry. C17: functions with concrete pointer error types returning typed nils (tools/drycheck.py; not modelled)
+    drynil_cov = None
+    if prop == "C17":
+        import drycheck
+        dn, dtn, dd, dtd, dbad, drynil_cov = drycheck.check(tier, seed)
+        if dbad:
+            ci, oi, why = dbad[0]
+            p = write_replay(prop, f"drynil-{case_hash(dn[ci])}",
+                             {"property": prop, "meaning": "the same history gives different verdict classes on a normal and on a dry container: " + why,
+                              "operation": oi, "case": dn[ci], "implementation_trace": dtn[ci], "twin_case": dd[ci], "twin_trace": dtd[ci]})
+            print(f"VIOLATION property={prop} replay={p}")
+            violations += 1
+
     # ---- 4c. C14 / C18: the grammar stream against Parse.v (DryRun container)
     raw_cov = None
     if prop in ("C09", "C14", "C18") and all(f in built for f in ("GoTypes", "Parse", "RunRaw")):
@@ -641,6 +654,9 @@ def main():
     if cb_cov:
         cov["callbacks_looking_at_the_container"] = cb_cov
         cov["evaluations"] += cb_cov["histories"]
+    if drynil_cov:
+        cov["typed_nil_errors_dry_vs_normal"] = drynil_cov
+        cov["evaluations"] += drynil_cov["histories"]
     if anon_cov:
         cov["anonymous_values"] = anon_cov
         cov["evaluations"] += anon_cov["histories"]
